@@ -108,6 +108,8 @@ def _ev(e: ast.expr, env: dict[str, bool]) -> Optional[bool]:
         return env[t]
     if isinstance(e, ast.Constant) and isinstance(e.value, bool):
         return e.value
+    if isinstance(e, ast.Call) and isinstance(e.func, ast.Name) and e.func.id == "bool" and len(e.args) == 1 and not e.keywords:
+        return _ev(e.args[0], env)
     if isinstance(e, ast.UnaryOp) and isinstance(e.op, ast.Not):
         v = _ev(e.operand, env)
         return None if v is None else (not v)
@@ -145,16 +147,147 @@ def _hook_call(c: ast.Call, name: str) -> bool:
         isinstance(c.func.value, ast.Call) and call_name(c.func.value) == "super")
 
 
+# ------------------------------------------------------------------ one-level inlining of private helpers
+
+def _inline_helpers(fn: ast.FunctionDef, lookup, skip: frozenset = frozenset()) -> ast.FunctionDef:
+    """Copy of fn in which (one level of) statement-level calls `self.h(...)` of a helper method h of the same class
+    are replaced by h's body (parameters bound, helper locals renamed), and `for c in (self.a, self.b): c()` loops over
+    a literal tuple of bound methods are unrolled.  Helpers that return a value, contain nested defs or reassign a
+    parameter are left alone.  The analysed structure is then the same whether or not a helper was extracted."""
+    import copy
+
+    def params_of(h: ast.FunctionDef) -> list[str]:
+        ps = [a.arg for a in h.args.posonlyargs + h.args.args]
+        return ps[1:] if ps and ps[0] in ("self", "cls") else ps
+
+    def helper_body(call: ast.Call) -> Optional[list]:
+        f = call.func
+        if not (isinstance(f, ast.Attribute) and isinstance(f.value, ast.Name) and f.value.id == "self"):
+            return None
+        h = lookup(f.attr)
+        if h is None or h.name == fn.name or h.name in skip or h.args.vararg or h.args.kwarg:
+            return None
+        body = [s for s in h.body if not (isinstance(s, ast.Expr) and isinstance(s.value, ast.Constant)
+                                          and isinstance(s.value.value, str))]
+        if body and isinstance(body[-1], ast.Return) and body[-1].value is None:
+            body = body[:-1]
+        for s in body:
+            for n in walk_local(s):
+                if isinstance(n, (ast.Return, ast.Yield, ast.YieldFrom, ast.FunctionDef, ast.AsyncFunctionDef, ast.Lambda,
+                                  ast.Global, ast.Nonlocal, ast.ClassDef)):
+                    return None
+        ps = params_of(h)
+        if any(isinstance(a, ast.Starred) for a in call.args) or any(k.arg is None for k in call.keywords) \
+                or len(call.args) > len(ps):
+            return None
+        m: dict[str, ast.AST] = {p: a for p, a in zip(ps, call.args)}
+        for k in call.keywords:
+            if k.arg in m or k.arg not in ps + [a.arg for a in h.args.kwonlyargs]:
+                return None
+            m[k.arg] = k.value
+        for pname, d in zip(ps[len(ps) - len(h.args.defaults):], h.args.defaults):
+            m.setdefault(pname, d)
+        for a, d in zip(h.args.kwonlyargs, h.args.kw_defaults):
+            if d is not None:
+                m.setdefault(a.arg, d)
+        if set(ps) - set(m):
+            return None
+        stored = {t.id for s in body for n in walk_local(s) if isinstance(n, ast.stmt) for t in assigned_targets(n)
+                  if isinstance(t, ast.Name)}
+        if stored & set(m):
+            return None
+        ren = {nm: f"{nm}__{h.name}" for nm in stored}
+
+        class T(ast.NodeTransformer):
+            def visit_Name(self, n: ast.Name):
+                if n.id in ren:
+                    return ast.copy_location(ast.Name(id=ren[n.id], ctx=n.ctx), n)
+                if n.id in m and isinstance(n.ctx, ast.Load):
+                    return ast.copy_location(copy.deepcopy(m[n.id]), n)
+                return n
+
+        return [ast.fix_missing_locations(T().visit(copy.deepcopy(s))) for s in body]
+
+    def unrolled(s: ast.For) -> Optional[list]:
+        if not (isinstance(s.target, ast.Name) and isinstance(s.iter, (ast.Tuple, ast.List)) and s.iter.elts and not s.orelse):
+            return None
+        if not all(isinstance(e, ast.Attribute) and isinstance(e.value, ast.Name) and e.value.id == "self" for e in s.iter.elts):
+            return None
+        if any(isinstance(n, (ast.Break, ast.Continue)) for b in s.body for n in walk_local(b)):
+            return None
+        out = []
+        for e in s.iter.elts:
+            class U(ast.NodeTransformer):
+                def visit_Name(self, n: ast.Name):
+                    if n.id == s.target.id and isinstance(n.ctx, ast.Load):
+                        return ast.copy_location(copy.deepcopy(e), n)
+                    return n
+            out += [ast.fix_missing_locations(U().visit(copy.deepcopy(b))) for b in s.body]
+        return out
+
+    def rewrite(stmts: list, depth: int = 0) -> list:
+        out = []
+        for s in stmts:
+            if isinstance(s, ast.For) and depth == 0:
+                un = unrolled(s)
+                if un is not None:
+                    out += rewrite(un, depth)
+                    continue
+            if isinstance(s, ast.Expr) and isinstance(s.value, ast.Call) and depth == 0:
+                b = helper_body(s.value)
+                if b is not None:
+                    out += rewrite(b, depth + 1)  # unroll loops inside, but do not inline a second level
+                    continue
+            if not isinstance(s, (ast.FunctionDef, ast.AsyncFunctionDef, ast.ClassDef)):
+                for field in ("body", "orelse", "finalbody"):
+                    v = getattr(s, field, None)
+                    if isinstance(v, list) and v and isinstance(v[0], ast.stmt):
+                        setattr(s, field, rewrite(v, depth))
+                if isinstance(s, ast.Try):
+                    for hd in s.handlers:
+                        hd.body = rewrite(hd.body, depth)
+            out.append(s)
+        return out
+
+    fn2 = copy.deepcopy(fn)
+    fn2.body = rewrite(fn2.body)
+    return fn2
+
+
+def _opaque_helpers(fn: ast.FunctionDef, lookup, relevant: set[str], where: str) -> None:
+    """After inlining: a remaining call `self.h(...)` of a same-class helper that itself performs one of the `relevant`
+    calls hides part of the analysed protocol -> Undecided (never a finding)."""
+    for c in walk_local(fn):
+        if isinstance(c, ast.Call) and isinstance(c.func, ast.Attribute) and isinstance(c.func.value, ast.Name) \
+                and c.func.value.id == "self":
+            h = lookup(c.func.attr)
+            if h is None or h.name == fn.name or c.func.attr in relevant:
+                continue
+            inner = [x for x in walk_local(h) if isinstance(x, ast.Call) and call_name(x) in relevant]
+            if inner:
+                raise Undecided(f"{where}: helper self.{h.name}() performs `{call_name(inner[0])}` but could not be inlined "
+                                "(returns a value / is used in an expression)")
+
+
 # ------------------------------------------------------------------ R1: abstract exploration of a solver driver
 
-def _check_conv_targets(s: ast.stmt) -> Optional[list[Optional[str]]]:
-    """Names bound by `a, b = X.check_convergence(...)` (None for `_` / non-names)."""
-    if isinstance(s, ast.Assign) and isinstance(s.value, ast.Call) and call_name(s.value) == "check_convergence" \
-            and len(s.targets) == 1:
-        t = s.targets[0]
-        if isinstance(t, ast.Tuple):
-            return [e.id if isinstance(e, ast.Name) and e.id != "_" else None for e in t.elts]
-        raise Undecided(f"result of check_convergence is not unpacked: {u(s)}")
+def _is_cc_call(e: Optional[ast.AST]) -> bool:
+    return isinstance(e, ast.Call) and call_name(e) == "check_convergence"
+
+
+def _check_conv_targets(s: ast.stmt, cc_names: frozenset = frozenset()) -> Optional[list[Optional[str]]]:
+    """Names bound to verdict components by statement s (None entries for `_` / non-names):
+    `a, b = X.check_convergence(...)`, `a, b = status` and `a = status[0]` with `status = X.check_convergence(...)`.
+    None if s does not write verdict components."""
+    if not (isinstance(s, ast.Assign) and len(s.targets) == 1):
+        return None
+    t, v = s.targets[0], s.value
+    from_cc = _is_cc_call(v) or (isinstance(v, ast.Name) and v.id in cc_names)
+    if from_cc and isinstance(t, (ast.Tuple, ast.List)):
+        return [e.id if isinstance(e, ast.Name) and e.id != "_" else None for e in t.elts]
+    if isinstance(v, ast.Subscript) and (_is_cc_call(v.value) or (isinstance(v.value, ast.Name) and v.value.id in cc_names)) \
+            and isinstance(t, ast.Name):
+        return [t.id]
     return None
 
 
@@ -166,11 +299,13 @@ class _Driver:
         self.where = where
         self.g = cfgmod.build(fn)
         self.nested = {s.name: s for s in walk_local(fn) if isinstance(s, ast.FunctionDef) and s is not fn}
+        self.cc_names = frozenset(t.id for scope in [fn] + list(self.nested.values()) for s in walk_local(scope)
+                                  if isinstance(s, ast.Assign) and _is_cc_call(s.value) for t in s.targets if isinstance(t, ast.Name))
         flags: list[str] = []
         for scope in [fn] + list(self.nested.values()):
             for s in walk_local(scope):
                 if isinstance(s, ast.stmt):
-                    t = _check_conv_targets(s)
+                    t = _check_conv_targets(s, self.cc_names)
                     if t:
                         flags += [x for x in t if x and x not in flags]
         if not flags:
@@ -237,7 +372,7 @@ class _Driver:
                     v = _ev(st.test, env)
                     outs = [(fv, nc, nf, it, verdict, v)]
                 elif isinstance(st, (ast.Assign, ast.AnnAssign, ast.AugAssign)) and not outs:
-                    tg = _check_conv_targets(st)
+                    tg = _check_conv_targets(st, self.cc_names)
                     if tg is not None:
                         fvs = [fv]
                         for pos, name in enumerate(tg):
@@ -279,8 +414,10 @@ class _Driver:
 
 def _rule_driver(ctx: Ctx, rel: str, qual: str) -> None:
     mod = ctx.repo.module(rel)
-    fn = mod.func(qual)
     where = f"{rel}:{qual}"
+    lookup = methods(mod.cls(qual.split(".")[0])).get
+    fn = _inline_helpers(mod.func(qual), lookup)
+    _opaque_helpers(fn, lookup, {H_CONV, H_FAIL, H_ITER, "check_convergence"}, where)
     d = _Driver(fn, where)
     exits, conv_without_iter, nstates = d.explore()
     if not exits:
@@ -420,8 +557,15 @@ def _shift_then_write(g, sig, fn, kind: str, additive_required: bool):
     return out
 
 
-def _body_obligations(hook: str, fn: ast.FunctionDef, sig: _Sig) -> list[tuple]:
-    """[(ok, node, message, construct, facts)] for one implementation of a hook."""
+PROTOCOL_CALLS = {"set_variable_values", "get_variable_values", "shift_time_step_values", "shift_iterate_values",
+                  "compute_time_step"} | set(HOOKS)
+
+
+def _body_obligations(hook: str, fn: ast.FunctionDef, sig: _Sig, lookup=None) -> list[tuple]:
+    """[(ok, node, message, construct, facts)] for one implementation of a hook (same-class helpers inlined)."""
+    if lookup is not None:
+        fn = _inline_helpers(fn, lookup, skip=frozenset(HOOKS))
+        _opaque_helpers(fn, lookup, PROTOCOL_CALLS, f"hook {fn.name}")
     g = cfgmod.build(fn)
     if hook == H_UPD:
         return _shift_then_write(g, sig, fn, "time", additive_required=False)
@@ -486,7 +630,7 @@ def _rule_hook_bodies(ctx: Ctx, sig: _Sig) -> None:
     for h in HOOKS_WITH_BODY:
         q = f"SolutionStrategy.{h}"
         fn = sol.func(q)
-        obs = _body_obligations(h, fn, sig)
+        obs = _body_obligations(h, fn, sig, methods(sol.cls("SolutionStrategy")).get)
         if not obs:
             raise AnchorError(f"{SOLSTRAT}:{q}: no obligations extracted")
         for ok, node, msg, cons, facts in obs:
@@ -535,7 +679,7 @@ def _rule_overrides(ctx: Ctx, sig: _Sig) -> None:
                 failed: list[str] = []
                 ok_body = False
                 if not ok_super and h in HOOKS_WITH_BODY:
-                    obs = _body_obligations(h, fn, sig)
+                    obs = _body_obligations(h, fn, sig, ms.get)
                     failed = [cons for ok, _, _, cons, _ in obs if not ok]
                     ok_body = bool(obs) and not failed
                 how = "super" if ok_super else ("re-implements" if ok_body else "neither")
